@@ -320,8 +320,8 @@ func c13PanicSite() string {
 // generators
 
 var (
-	c13Hosts   = []string{"registry.ollama.ai", "localhost:11434", "h", "example.com", "127.0.0.1:5000", "hf.co", "Registry.Ollama.AI", "_h", "a.b-c_d:1:2", "H0st", "x:", "http:", "a..b", "0"}
-	c13Nss     = []string{"library", "n", "user_1", "Alice", "a-b", "_", "LIBRARY", "0x", "n-", "bartowski"}
+	c13Hosts   = []string{"registry.ollama.ai", "library", "Library", "latest", "localhost:11434", "h", "example.com", "127.0.0.1:5000", "hf.co", "Registry.Ollama.AI", "_h", "a.b-c_d:1:2", "H0st", "x:", "http:", "a..b", "0"}
+	c13Nss     = []string{"library", "registry.ollama.ai", "latest", "n", "user_1", "Alice", "a-b", "_", "LIBRARY", "0x", "n-", "bartowski"}
 	c13Models  = []string{"llama3.2", "m", "Mistral-7B", "_m", "a.b", "m..x", "Foo", "x-", "m.", "0", "Llama-3.2-1B-Instruct-GGUF"}
 	c13Tags    = []string{"latest", "t", "7b-q4_K_M", "v1.0", "LATEST", "_", "q4..0", "t.", "Q4_K_M"}
 	c13Hostile = []string{"..", "..", ".", "", "...", ".hidden", "..x", "-x", "a/b", "a\\b", "a\x00b", "a b", "a%2fb", "%2e%2e", "a:b", "é", "\u212a", "x@y", "~", "*", "?", "[a]",
@@ -1024,6 +1024,15 @@ func (x *c13Run) nameCase(s string) {
 			}
 		})
 		x.count("oracle.model-roundtrip")
+		// the short printed form (what /api/tags shows and what pull/push/delete are then given) omits default
+		// parts only: reading it back must give the same name again (defaults compare case-insensitively)
+		x.guard("model short form round trip", func() {
+			short := n.DisplayShortest()
+			if rt := model.ParseName(short); !rt.EqualFold(n) {
+				x.v("model-short-roundtrip", "ParseName(%q) = %#v is listed as %q, which parses as %#v", s, n, short, rt)
+			}
+		})
+		x.count("oracle.model-short-roundtrip")
 		// ---- the other parser reads the printed name
 		x.guard("cross parser model->names", func() {
 			_, uerr := e.rc.Unlink(printed)
